@@ -100,6 +100,7 @@ Mon0 == [name |-> "-", cfg |-> [max_retry |-> 3, auto_retry |-> 2, max_interval 
          tuAt |-> [t \in Towers |-> -1],
          sawUnr |-> [t \in Towers |-> FALSE],
          lastTs |-> 0,
+         lastcls |-> [t \in Towers |-> "none"],    \* class of the last answer of t
          lastObs |-> [db |-> [towers |-> <<>>, regs |-> <<>>, rcpts |-> <<>>, pend |-> <<>>, inv |-> <<>>, bodies |-> <<>>,
                               proofs |-> <<>>], mem |-> <<>>, memok |-> FALSE, ts |-> 0]]
 
@@ -127,6 +128,10 @@ TaskIds(s) == {n.id : n \in s.nots} \cup {g.id : g \in s.regs}
 DropTask(s, id) == [s EXCEPT !.nots = {n \in @ : n.id # id}, !.regs = {g \in @ : g.id # id}]
 
 \* why could nobody have sent this request?
+\* requests nobody could have sent right after an answer of the tower that cannot be understood: the client spins on it
+SpinTags(e) ==
+    IF e.t \in Towers /\ mon.lastcls[e.t] \in {"garbage", "malsig"} THEN T("C14", "Survives.spins_on_an_answer") ELSE {}
+
 ReqTags(C, e) ==
     IF C # {} /\ \A s \in C : HasProof(s.st.db, e.t) THEN T("C14", "BadSig.request_to_misbehaving_tower")
     ELSE IF C # {} /\ \A s \in C : s.rt[e.t].s = "running" /\ s.rt[e.t].pc \in {"wait", "regwait", "got", "reggot", "got2"}
@@ -141,7 +146,7 @@ ObsFail1(C, e, odb) ==
         tg == IF bad = {} THEN T("C05", "conf.db")
               \* only the slot count of a tower differs: the data layer's business (C18)
               ELSE IF bad = {"towers"} /\ \E s \in C : {r.t : r \in s.st.db.towers} = {r.t : r \in odb.towers}
-                   THEN T("C18", "conf.db.slots")
+                   THEN T("C18", "conf.db.towers_row")
               ELSE UNION {T(IF f \in {"proofs", "regs", "towers"} THEN "C14" ELSE "C05", "conf.db." \o f) : f \in bad}
         F == {[s EXCEPT !.st.db = odb, !.st.mem = IF ~e.memok THEN @ ELSE ObsMem(e.mem)] : s \in C}
     IN [bel |-> F, tags |-> tg]
@@ -251,14 +256,14 @@ R(e, C) ==
            Res(C, {}, mon)
       [] e.ev = "req" ->
            Let1(UNION {SendSet(s, e.t, e.ep, e.l, e.seq, e.ts) : s \in C}, LAMBDA B :
-              IF B # {} THEN Res(B, {}, mon) ELSE Res(C, ReqTags(C, e), mon))
+              IF B # {} THEN Res(B, {}, mon) ELSE Res(C, ReqTags(C, e) \cup SpinTags(e), mon))
       [] e.ev = "rep" ->
            LET good == e.cls = <<"accept">> /\ (e.ep = "add" \/ \A s \in C : RegAccepted(s.st, e.t, e.slots, e.expiry))
                \* a renewal the tower answered with something the client cannot accept: no delivery is owed until a
                \* renewal succeeds ("once the subscription has been renewed")
                m1 == IF e.ep = "reg" THEN [mon EXCEPT !.bad[e.t] = IF good THEN @ \ {"renew"} ELSE @ \cup {"renew"}] ELSE mon
            IN Res(UNION {UNION {ReplySet(s, e.t, e.seq, RepOf(e, k)) : k \in SetOf(e.cls)} : s \in C}, {},
-                  IF good THEN m1 ELSE Touch(m1, {e.t}, e.ts))
+                  [(IF good THEN m1 ELSE Touch(m1, {e.t}, e.ts)) EXCEPT !.lastcls[e.t] = e.cls[1]])
       [] e.ev = "env" ->
            Res({SetUp(s, e.t, e.up) : s \in C}, {},
                [Touch(mon, {e.t}, e.ts) EXCEPT !.downAt[e.t] = IF e.up THEN -1 ELSE e.ts])
